@@ -265,7 +265,10 @@ class LineSequence(Sequence):
     super().__init__(perms, serializer, deserializer)
     self._path = path
     self._mode = mode
-    self._file = file_system.open(path, mode)
+    # Records are delimited by '\n' only: without newline translation a carriage
+    # return inside a record is read back as it was written.
+    kwargs = {} if 'b' in mode else {'newline': '\n'}
+    self._file = file_system.open(path, mode, **kwargs)
 
   def __len__(self):
     raise NotImplementedError(
